@@ -64,7 +64,7 @@ KERNELS = [
 MEANS = ["const", "linear", "quadratic"]
 ERRS = [("none", "array"), ("y_err", "array"), ("y_err", "list"), ("y_cov", "array"),
         ("y_cov", "list"), ("y_cov", "tuple"), ("y_cov_full", "array"), ("y_cov_full", "list")]
-N_WEIGHTS = {2: 3, 3: 4, 4: 4, 5: 4, 6: 3, 7: 2, 8: 2}
+N_WEIGHTS = {2: 3, 3: 4, 4: 4, 5: 4, 6: 3, 7: 2, 8: 1}
 COND_MAX = 1e4
 
 
@@ -141,6 +141,9 @@ def gen_case(r, k, tier):
         A = data_cov_float(case)
         if A is not None and np.all(np.isfinite(A)) and np.linalg.cond(A) <= COND_MAX:
             case["cond"] = float(np.linalg.cond(A))
+            if r.random() < 0.35:      # reach the final hyper-parameters through set_hyperparameters
+                case["first_hyperpars"] = MX.hexlist(
+                    MX.mean_hyperpars(r, mean, d) + MX.kernel_hyperpars(r, kern, n, d, noise_lo=0.4))
             return case
         if attempt % 20 == 19:      # shorter length scales help when there is no noise term
             x = x * 1.5
@@ -207,7 +210,21 @@ def build(case):
         kw["y_err"] = contain(ye, case["err"]["container"])
     if yc is not None:
         kw["y_cov"] = contain(yc, case["err"]["container"])
-    return GP()(xin, y, hyperpars=MX.unhex(case["hyperpars"]),
+    hp = MX.unhex(case["hyperpars"])
+    if case.get("first_hyperpars"):
+        # construct with other hyper-parameters, then move to the intended ones:
+        # everything cached by set_hyperparameters (K_xx, mu, L, alpha) must follow
+        gp = GP()(xin, y, hyperpars=MX.unhex(case["first_hyperpars"]),
+                  kernel=MX.make_kernel(case["kernel"]), mean=MX.make_mean(case["mean"]), **kw)
+        # use every path once under the first hyper-parameters, so that anything a
+        # path caches on first use is stale afterwards
+        parg, _ = query_arg(case)
+        gp(parg)
+        gp.build_posterior(parg)
+        gp.build_posterior(parg, mean_only=True)
+        gp.set_hyperparameters(hp)
+        return gp
+    return GP()(xin, y, hyperpars=hp,
                 kernel=MX.make_kernel(case["kernel"]), mean=MX.make_mean(case["mean"]), **kw)
 
 
@@ -392,8 +409,8 @@ def metamorphic(case, out, r):
 
 # ---------------------------------------------------------------- driver
 def describe(case):
-    return {k: case[k] for k in ("n", "d", "b", "x", "y", "points", "kernel", "mean", "hyperpars",
-                                 "err", "x_form", "p_form")}
+    return {k: case.get(k) for k in ("n", "d", "b", "x", "y", "points", "kernel", "mean", "hyperpars",
+                                     "first_hyperpars", "err", "x_form", "p_form")}
 
 
 def run(rep: C.Report, tier: str) -> int:
@@ -416,6 +433,7 @@ def run(rep: C.Report, tier: str) -> int:
         rep.count("errors=" + case["err"]["kind"] + "/" + case["err"]["container"]
                   + ("/full" if case["err"]["kind"] == "y_cov" and "diag_of_y_err" not in case["err"] else ""))
         rep.count("cond<=1e%d" % max(0, math.ceil(math.log10(case["cond"]))))
+        rep.count("hyperpars via " + ("set_hyperparameters" if case.get("first_hyperpars") else "constructor"))
         rep.case(describe(case), nontrivial=True)
         if k < 3:
             rep.sample({"config": {"n": case["n"], "d": case["d"], "b": case["b"],
